@@ -716,11 +716,13 @@ def rctx_method(I, rec, name, args, kwargs):
         kt = models.strterm(args[0])
         present = z3.Select(m.has, kt)
         old = VAny(z3.Select(m.val, kt))
+        if len(args) > 1:
+            # pop(key, default): no exception either way -- one path
+            m.has = z3.Store(m.has, kt, z3.BoolVal(False))
+            return VAny(z3.If(present, old.t, to_any(args[1]).t))
         if I.decide(present, 'rcontext-pop-present'):
             m.has = z3.Store(m.has, kt, z3.BoolVal(False))
             return old
-        if len(args) > 1:
-            return args[1]
         from .interp import Raised
         from .values import VExc
         raise Raised(VExc(KeyError, [args[0]]))
